@@ -41,6 +41,8 @@ def applicable(name, sp):
             if name == "displacement-outside-brackets" and unamb and (m[3] or m[4]) and m[6] > 0:
                 return True
         return False
+    if name.startswith("zero-displacement"):
+        return any((m[3] or m[4]) and m[6] == 0 and not (m[3] and m[4] and m[5] == 1) for m in mems)
     if name in ("st-as-st(0)", "ST-uppercase"):
         return any(o == ("reg", "st") for o in ops) or (name == "ST-uppercase" and any(o[0] == "reg" and o[1].startswith("st(") for o in ops))
     return True
